@@ -76,3 +76,13 @@ func init() {
 		Stages: []Stage{{Name: "cascade", Pkg: "./mon/c08", Procs: 1, Batches: [2]int{8, 16}, TimeoutS: [2]int{600, 3000}}},
 	}
 }
+
+func init() {
+	properties["C10"] = Property{
+		Level: "exploration",
+		Rule:  "one case = (lifecycle walk prefix, location, rule id) observed by a full ProcessEvent whose action values name the rule version that ran, plus RuleEnabled and ListRules; walks of 10-25 steps over add/overwrite/RemRule/RemFact/overwrite-by-fact/disable/enable/reload/location off+on on 2 ids, every third walk with the rules in a parent and flags in the child; non-trivial = the step changed which versions must fire somewhere; distinct by canonical JSON of (state, walk prefix, location, id)",
+		Floor: [2]int{200, 2000},
+		Assumptions: []string{"the model: the disabled flag belongs to the id (can be set before the rule exists), is cleared by removal of the id, survives reload; duplicate ids across child and parent are the documented error"},
+		Stages: []Stage{{Name: "lifecycle", Pkg: "./mon/c10", Procs: 2, Batches: [2]int{8, 16}, TimeoutS: [2]int{900, 3600}}},
+	}
+}
